@@ -17,14 +17,17 @@ const BAD_DIRS: &[&str] = &[" asc", "up", "ascending", "asc ", "a", "descc"];
 const SORT_PATS: &[&str] = &[r"x=(?P<value>\d+)", r"\w+", r"(?P<value>[a-z]+)", r"^\S+", r"\d+(\.\d+)?",
     r"x=(?P<value>\d+)|^[a-z0-9.]+", r"^\s*(?:x=(?P<value>\d+))?\S*",
     // the short spelling of a named group, and groups that are NOT called `value` (whole match then)
-    r"x=(?<value>\d+)", r"(?<value>[a-z]+)\d*", r"x=(?P<val>\d+)", r"x=(?P<value2>\d+) ?(?P<valu>\w*)"];
+    r"x=(?<value>\d+)", r"(?<value>[a-z]+)\d*", r"x=(?P<val>\d+)", r"x=(?P<value2>\d+) ?(?P<valu>\w*)",
+    // a blank at the edge of the pattern is part of the pattern
+    r" (?P<value>\w+)", r"\w+ ", "\t\\S+", r" "];
 const BAD_PATS: &[&str] = &["(", "[a-", "(?P<value>", "*a"];
 const FORMATS: &[&str] = &["numeric", "Numeric", "NUMERIC", "lexicographic", "Lexicographic", "", " numeric "];
 const BAD_FORMATS: &[&str] = &["num", "numeric1", "alpha", "numericc"];
-const LINE_PATS: &[&str] = &[r"^[a-z]+$", r"\d", r"^x=\d+", r"^\S+$", r"b", r"^$", r"^\s", r"a|b"];
+const LINE_PATS: &[&str] = &[r"^[a-z]+$", r"\d", r"^x=\d+", r"^\S+$", r"b", r"^$", r"^\s", r"a|b", r" b", r"a ", r" "];
 const UNIQ_PATS: &[&str] = &["", "", r"x=(?P<value>\d+)", r"^\w", r"(?P<value>[a-z]+)", r"\d+",
     r"x=(?P<value>\d+)|^[a-z0-9.]+", r"^\s*(?:x=(?P<value>\d+))?\S*",
-    r"x=(?<value>\d+)", r"(?<value>[a-z]+)\d*", r"x=(?P<val>\d+)", r"x=(?P<value2>\d+) ?(?P<valu>\w*)"];
+    r"x=(?<value>\d+)", r"(?<value>[a-z]+)\d*", r"x=(?P<val>\d+)", r"x=(?P<value2>\d+) ?(?P<valu>\w*)",
+    r" (?P<value>\w+)", r"\w+ ", r" "];
 const OPS: &[&str] = &["<", "<=", "==", ">=", ">"];
 const BAD_COUNTS: &[&str] = &["", " ", "5", "=5", "=<5", "<= five", "<=", "< -1", "<18446744073709551616", "== 5 6", "!=3", "<=5.0", "≤5"];
 const SEVERITIES: &[&str] = &["error", "warning", "info", "hint", "Warning", "ERROR", "HiNt"];
@@ -148,7 +151,34 @@ pub fn generate(_ctx: &mut Ctx, seed: u64, i: usize, kind: &str, always_malforme
             }
         })
         .collect();
+    // one case in five: a second synchronous rule on the SAME tag (the detection loop meets two detectors firing on one block,
+    // possibly the only block of the run carrying either), every validator enabled
+    let mut companion = false;
+    if !["check-lua", "check-ai", "affects"].contains(&kind) && rng.chance(1, 5) {
+        let comps: [(&str, &str); 4] = [("keep-sorted", "asc"), ("keep-unique", ""), ("line-count", ">=0"), ("line-pattern", ".")];
+        let first = rng.below(4);
+        for d in 0..1 + rng.below(2) {
+            let (k, v) = comps[(first + d) % 4];
+            if k == kind || attrs.iter().any(|a| a.0 == k) { continue; }
+            if k == "line-pattern" { patterns.push(v.to_string()); }
+            attrs.push((k.to_string(), v.to_string()));
+            companion = true;
+        }
+    }
     let tag = format!("<block{}>", attrs.iter().map(|(k, v)| format!(" {k}={}", quote(v))).collect::<String>());
+    // the same tag with ANOTHER value of the rule (for a second file whose block sits at the same line and column)
+    let alt_value: Option<String> = match kind {
+        "line-count" => Some([">100", "<1", "==0", ">=3", "<=1"][rng.below(5)].to_string()),
+        "keep-sorted" => Some(if attrs[0].1.trim().eq_ignore_ascii_case("desc") { "asc".to_string() } else { "desc".to_string() }),
+        "line-pattern" => Some(rng.pick(LINE_PATS).to_string()),
+        "keep-unique" => Some(rng.pick(UNIQ_PATS).to_string()),
+        _ => None,
+    };
+    let tag_alt = alt_value.as_ref().map(|v| {
+        let mut a2 = attrs.clone();
+        a2[0].1 = v.clone();
+        format!("<block{}>", a2.iter().map(|(k, v)| format!(" {k}={}", quote(v))).collect::<String>())
+    });
     // layout: tag comment, optional same-line content for block-comment languages, content lines, end comment
     let mut src = String::new();
     let pre = rng.below(3);
@@ -219,7 +249,16 @@ pub fn generate(_ctx: &mut Ctx, seed: u64, i: usize, kind: &str, always_malforme
     let mut twin_file: Option<String> = None;
     if kind != "affects" && kind != "check-lua" && kind != "check-ai" {
         if rng.chance(1, 6) { let copy = src.clone(); src += "between copies\n"; src += &copy; }
-        if rng.chance(1, 6) { twin_file = Some(src.clone()); }
+        if rng.chance(1, 6) {
+            // the second file repeats the text; half of the time its rule has ANOTHER value at the same tag position
+            twin_file = Some(match (&tag_alt, rng.chance(1, 2)) {
+                (Some(t2), true) if t2.len() == tag.len() || !src.contains('\u{0}') => {
+                    if let Some(v) = &alt_value { if kind == "line-pattern" || kind == "keep-unique" { if !v.is_empty() { patterns.push(v.clone()); } } }
+                    src.replace(&tag, t2)
+                }
+                _ => src.clone(),
+            });
+        }
     }
     // one case in four: bystander blocks carrying OTHER synchronous rules, each violated, in the same file, and every
     // validator enabled - the diagnostics of several validators for one file have to be merged, none may displace another
@@ -236,7 +275,7 @@ pub fn generate(_ctx: &mut Ctx, seed: u64, i: usize, kind: &str, always_malforme
         }
         enabled = vec![];
     }
-    if with_async { enabled = vec![]; }
+    if with_async || companion { enabled = vec![]; }
     // one check-lua case in six: 20-40 more healthy scripted blocks AFTER the malformed one (more than any pool of worker
     // threads or in-flight limit; the malformed block's task is among the first to be spawned and to finish): its error
     // must still surface
